@@ -5,9 +5,10 @@ import (
 )
 
 // C10 (fee-token swap arithmetic): LossLessSwap(offered, ratio, inScale, outScale) = (burned, minted)
-//   A: 0 <= burned <= offered
-//   B: minted*10^in*10^18 <= burned*ratioRaw*10^out     (never mints more than the burned amount is worth)
-//   C: at ratio 1: burned*10^out == minted*10^in  and  offered-burned < 10^max(0,in-out)
+//
+//	A: 0 <= burned <= offered
+//	B: minted*10^in*10^18 <= burned*ratioRaw*10^out     (never mints more than the burned amount is worth)
+//	C: at ratio 1: burned*10^out == minted*10^in  and  offered-burned < 10^max(0,in-out)
 func VerifC10_LossLessSwap() {
 	verifExpect("converted")
 	scales := []uint32{0, 6, 18}
